@@ -23,6 +23,9 @@ func init() {
 			Old: "\t\t\t\tif err := store.InsertSchema(ctx, &payload.Schema); err != nil {", New: "\t\t\t\trebuilt := ledger.Schema{Version: payload.Schema.Version, CreatedAt: payload.Schema.CreatedAt, SchemaData: ledger.SchemaData{Chart: payload.Schema.Chart, Transactions: payload.Schema.Transactions}}\n\t\t\t\tif err := store.InsertSchema(ctx, &rebuilt); err != nil {", Expect: "DOM/import-schema"},
 	)
 	addBreakers("C31",
+		Breaker{Name: "commit-error-filtered-in-a-helper", File: "internal/storage/ledger/store.go",
+			Old: "\t\t\treturn db.Commit()\n", New: "\t\t\treturn keepCommitError(db.Commit())\n",
+			Old2: "func (store *Store) GetLedger() ledger.Ledger {", New2: "func keepCommitError(err error) error {\n\tif err != nil && err.Error() == \"sql: transaction has already been committed or rolled back\" {\n\t\treturn nil\n\t}\n\treturn err\n}\n\nfunc (store *Store) GetLedger() ledger.Ledger {", Expect: "ERRP/commit-result"},
 		Breaker{Name: "commit-reports-success-on-finished-transaction", File: "internal/storage/ledger/store.go",
 			Old: "\t\t\treturn db.Commit()\n\t\t}))\n\t\treturn err\n", New: "\t\t\treturn db.Commit()\n\t\t}))\n\t\tif errors.Is(err, sql.ErrTxDone) {\n\t\t\treturn nil\n\t\t}\n\t\treturn err\n", Expect: "ERRP/commit-result"},
 	)
@@ -60,7 +63,7 @@ func ruleChartLookupFixedFinal(c *core.Ctx) {
 			continue
 		}
 		if as, ok := is.Init.(*ast.AssignStmt); ok && len(as.Rhs) == 1 {
-			if ix, ok := as.Rhs[0].(*ast.IndexExpr); ok && types.ExprString(ix.X) == "fixedSegments" {
+			if ix, ok := as.Rhs[0].(*ast.IndexExpr); ok && argIsParam(c, d, ix.X, 1) {
 				fixedIf = is
 			}
 		}
@@ -74,9 +77,16 @@ func ruleChartLookupFixedFinal(c *core.Ctx) {
 			continue
 		}
 		n++
-		a1, a2, a3 := types.ExprString(call.Args[1]), types.ExprString(call.Args[2]), nospace(types.ExprString(call.Args[3]))
+		a1, a2 := types.ExprString(call.Args[1]), types.ExprString(call.Args[2])
 		base := strings.TrimSuffix(a1, ".FixedSegments")
-		okRec := strings.HasSuffix(a1, ".FixedSegments") && a2 == base+".VariableSegment" && a3 == "account[1:]"
+		// the rest of the address: <4th parameter>[1:]
+		rest := false
+		if sl, isSl := ast.Unparen(call.Args[3]).(*ast.SliceExpr); isSl && sl.High == nil && sl.Max == nil && sl.Low != nil {
+			if v, isC := constInt(info, sl.Low); isC && v == 1 && argIsParam(c, d, sl.X, 3) {
+				rest = true
+			}
+		}
+		okRec := strings.HasSuffix(a1, ".FixedSegments") && a2 == base+".VariableSegment" && rest
 		c.Check(okRec, "SHAPE/chart-lookup", fmt.Sprintf("%s:descend#%d", key, n), pos(c, call), "descends into the matched segment's children with account[1:]", "the chart lookup does not descend into the matched segment's own fixed and variable children with the remaining address")
 	}
 	c.FloorShape("SHAPE/chart-lookup", "recursive descents", n, 2)
@@ -165,6 +175,31 @@ func ruleCommitResultPropagated(c *core.Ctx) {
 	filters := len(callsTo(info, d.Decl.Body, func(f *types.Func) bool {
 		return f.Pkg() != nil && f.Pkg().Path() == "errors" && (f.Name() == "Is" || f.Name() == "As")
 	}))
+	// the same through a same-package helper the error is handed to (`return keep(db.Commit())`)
+	isErrFilter := func(f *types.Func) bool {
+		return f.Pkg() != nil && f.Pkg().Path() == "errors" && (f.Name() == "Is" || f.Name() == "As")
+	}
+	inScope(fnScope(c, d, 2), func(sd *astx.DeclInfo) {
+		if sd == d || sd.Decl.Body == nil || sd.Decl.Type.Params == nil {
+			return
+		}
+		takesErr := false
+		for _, fl := range sd.Decl.Type.Params.List {
+			if t := sd.Pkg.TypesInfo.TypeOf(fl.Type); t != nil && t.String() == "error" {
+				takesErr = true
+			}
+		}
+		if !takesErr {
+			return
+		}
+		filters += len(callsTo(sd.Pkg.TypesInfo, sd.Decl.Body, isErrFilter))
+		ast.Inspect(sd.Decl.Body, func(x ast.Node) bool {
+			if r, ok := x.(*ast.ReturnStmt); ok && len(r.Results) == 1 && astx.IsNilExpr(sd.Pkg.TypesInfo, r.Results[0]) {
+				filters++
+			}
+			return true
+		})
+	})
 	c.Check(bad == nil && filters == 0 && n >= 2, "ERRP/commit-result", key, pos(c, d.Decl), "returns the driver's Commit error untouched", "Store.Commit can report success although the driver's Commit failed (for instance database/sql's ErrTxDone after the context was cancelled and the transaction rolled back): the write is answered as committed and its events are published although nothing was made durable")
 }
 
